@@ -716,9 +716,9 @@ def hand_cases2(ctx, res):
 
 def nillable_spelling_cases(ctx, res):
     """a required element called with None: refused unless the declaration says nillable - in every lexical spelling of the
-    xsd:boolean attribute (absent, false, 0 mean "not nillable")"""
+    xsd:boolean attribute (absent, false, 0 mean "not nillable"; true and 1 mean nillable)"""
     import zeep.xsd
-    for spelling, nillable in ((None, False), ("false", False), ("0", False), ("true", True)):
+    for spelling, nillable in ((None, False), ("false", False), ("0", False), ("true", True), ("1", True)):
         for kind, ty in (("leaf", 'type="xs:string"'), ("record", 'type="t:R"')):
             attr = "" if spelling is None else ' nillable="%s"' % spelling
             xsd = ('<xs:schema xmlns:xs="http://www.w3.org/2001/XMLSchema" xmlns:t="urn:fam" targetNamespace="urn:fam" elementFormDefault="qualified">'
